@@ -19,8 +19,8 @@ NoSt == [v |-> -1, c |-> "none", d |-> {}]
 StampOf(r) == [v |-> r.v, c |-> r.c, d |-> {<<r.d[i][1], r.d[i][2]>> : i \in 1..Len(r.d)}]
 Ex(iv, f) == iv[f] # NoV
 Gd(iv, f) == Ex(iv, f) /\ iv[f] > 0
-St(iv, cv, s) == IF ~Gd(iv, s) \/ (\E m \in MC_Requires[s] : ~Gd(iv, m)) THEN NoSt
-                 ELSE [v |-> iv[s], c |-> MC_Eff[cv][s], d |-> {<<m, iv[m]>> : m \in MC_Requires[s]}]
+St(iv, cv, s) == IF ~Gd(iv, s) \/ (\E m \in ReachOf(iv, s) : ~Gd(iv, m)) THEN NoSt
+                 ELSE [v |-> iv[s], c |-> MC_Eff[cv][s], d |-> {<<m, iv[m]>> : m \in ReachOf(iv, s)}]
 ObsOK(r, iv, cv) ==
   /\ r.foreign_ok /\ Len(r.stray) = 0
   /\ \A s \in MC_Sources :
